@@ -31,7 +31,7 @@ struct Case {
 }
 
 fn content_text(path: &str, c: &ModContent) -> String {
-    let tag = path.replace('/', "_");
+    let tag = path.replace(['/', '.'], "_");
     let mut s = String::new();
     for (k, b) in c.backends.iter().enumerate() {
         match b {
@@ -140,6 +140,15 @@ fn cases(tier: &str) -> Vec<Case> {
             }
         }
     }
+    // directory names containing dots (no struct types in them: their paths could not be named in Rust)
+    let dotted = ModContent { enum_: true, extern_value: true, backends: vec![0], ..Default::default() };
+    for set in [vec!["v1.2/alpha"], vec!["game.v1/types", "game.v2/types"], vec!["a", "v1.2/alpha", "v1.2/beta"]] {
+        let mut mods = BTreeMap::new();
+        for p in set {
+            mods.insert(p.to_string(), if p == "a" { simple.clone() } else { dotted.clone() });
+        }
+        out.push(Case { mods, collision: None });
+    }
     for c in COLLISIONS {
         for other in [false, true] {
             let mut mods = BTreeMap::new();
@@ -192,7 +201,7 @@ fn judge(c: &Case, files: &BTreeMap<String, String>) -> Option<(String, String)>
         return Some(("file_set_differs".into(), format!("expected {expected:?}, got {got:?}")));
     }
     for (path, content) in &c.mods {
-        let tag = path.replace('/', "_");
+        let tag = path.replace(['/', '.'], "_");
         let text = &files[&format!("{path}.rs")];
         let fi = match synx::file_info(text) {
             Ok(f) => f,
